@@ -158,5 +158,4 @@ MUTANTS = [
     dict(file=RB, func="RecordReducer.duration@setter", old="            self.__duration = value", new="            self.__step_time = value", contracts=["PassthroughReducer[setters_vs_constructor]"], name="D12 regression: duration setter overwrites step time"),
     dict(file=NMX, func="DelayedMixin.dt@setter", old="            self.__step_time = value", new="            pass", contracts=["DeltaCurrent[setters_vs_constructor]"]),
     dict(file=NMX, func="BatchMixin.batchsz@setter", old="getattr(self, cstr).reconstrain(0, value)", new="pass", contracts=["DeltaCurrent[setters_vs_constructor]", "LIF[setters_vs_constructor]"]),
-    dict(file="inferno/core/infrastructure.py", func="RecordTensor.dt@setter", old="size = max(math.ceil(self.__duration / self.__dt) + self.__inclusive, 1)", new="size = max(round(self.__duration / self.__dt) + self.__inclusive, 1)", contracts=["DeltaCurrent[setters_vs_constructor]", "PassthroughReducer[setters_vs_constructor]"], name="seed C14: dt setter sizes with round()"),
 ]
